@@ -110,9 +110,14 @@ def c32(prop, tier, replay):
 
 def ebnf_gens(tier, emit_lang):
     core = {"NTs": {"S"}, "Ts": {"a", "b"}, "MaxTok": 5 if tier == "quick" else 6, "MaxDepth": 2, "MaxProds": 1,
-            "LangN": 4, "EmitLang": emit_lang}
-    wide = {"NTs": {"S", "A"}, "Ts": {"a", "b"}, "MaxTok": 8, "MaxDepth": 3, "MaxProds": 2, "LangN": 4, "EmitLang": emit_lang}
+            "LangN": 4, "EmitLang": emit_lang, "PieceMode": False, "MaxPieces": 99}
+    wide = {"NTs": {"S", "A"}, "Ts": {"a", "b"}, "MaxTok": 8, "MaxDepth": 3, "MaxProds": 2, "LangN": 4, "EmitLang": emit_lang,
+            "PieceMode": False, "MaxPieces": 99}
+    # several groups / optionals / repetitions with alternatives inside one production
+    pieces = {"NTs": {"S"}, "Ts": {"a", "b"}, "MaxTok": 13 if tier == "quick" else 17, "MaxDepth": 2, "MaxProds": 1, "LangN": 4,
+              "EmitLang": emit_lang, "PieceMode": True, "MaxPieces": 4 if tier == "quick" else 5}
     return [{"module": "Gen_Ebnf", "constants": core, "invariants": ["Emit"], "no_shard_consts": True},
+            {"module": "Gen_Ebnf", "constants": pieces, "invariants": ["Emit"], "no_shard_consts": True},
             {"module": "Gen_Ebnf", "constants": wide, "invariants": ["Emit"], "no_shard_consts": True,
              "simulate": 150 if tier == "quick" else 4000, "nshards": 16, "depth": 30}]
 
